@@ -115,6 +115,14 @@ theorem pres_filterItem {pred : EvalM Value} (hp : Pres pred) (v : Value) : Pres
     · exact pres_bracket _ (pres_bracket _ ht)
   · exact pres_bracket _ ht
 
+theorem pres_itemScoped {pred : EvalM Value} (hp : Pres pred) (v : Value) : Pres (itemScoped pred v) := by
+  unfold itemScoped
+  split
+  · split
+    · exact pres_bracket _ hp
+    · exact pres_bracket _ (pres_bracket _ hp)
+  · exact pres_bracket _ hp
+
 theorem pres_filterLoop {pred : EvalM Value} (hp : Pres pred) (vs : List Value) :
     Pres (filterLoop pred vs) := by
   induction vs with
@@ -131,7 +139,7 @@ theorem pres_forLoop {body : EvalM Value} (hb : Pres body) (cs : List Ctx) (resu
     unfold forLoop
     exact pres_bind (pres_bracket _ hb) (fun _ => ih _)
 
-theorem pres_quantLoop {sat : EvalM Value} (hs : Pres sat) (isSome : Bool) (cs : List Ctx) (acc : Bool) :
+theorem pres_quantLoop {sat : EvalM Value} (hs : Pres sat) (isSome : Bool) (cs : List Ctx) (acc : Bool × Bool) :
     Pres (quantLoop isSome sat cs acc) := by
   induction cs generalizing acc with
   | nil => exact pres_pure _
@@ -150,8 +158,10 @@ theorem pres_invokePositional (env : Env) (hc : ∀ b, Pres (env.call b)) (f : V
   split
   · exact pres_lift _
   · split
-    · exact pres_callFunction env hc _ _ _
     · exact pres_pure _
+    · split
+      · exact pres_callFunction env hc _ _ _
+      · exact pres_pure _
   · exact pres_pure _
 
 theorem pres_invokeNamed (env : Env) (hc : ∀ b, Pres (env.call b)) (f : Value) (args : Value) :
@@ -163,8 +173,10 @@ theorem pres_invokeNamed (env : Env) (hc : ∀ b, Pres (env.call b)) (f : Value)
     · exact pres_pure _
   · split
     · split
-      · exact pres_callFunction env hc _ _ _
       · exact pres_pure _
+      · split
+        · exact pres_callFunction env hc _ _ _
+        · exact pres_pure _
     · exact pres_callFunction env hc _ _ _
   · exact pres_pure _
 
